@@ -25,11 +25,22 @@ pub const DRAIN_ERR_FOR_STATUS: usize = 8195; //  Response::error_for_status()?.
 pub const DRAIN_WRITE_TO_SHORT: usize = 8196; //  write_to into a sink that takes at most 1000 / 7 bytes per call
 pub const DRAIN_JSON: usize = 8197; //            Response::json::<Value>() (the body is a JSON document)
 pub const DRAIN_JSON_UTF8: usize = 8198; //       Response::json_utf8::<Value>()
+pub const DRAIN_TEXT: usize = 8199; //            Response::text() (charset from the head, else the default)
+pub const DRAIN_TEXT_WITH: usize = 8200; //       Response::text_with(WINDOWS_1252)
+pub const DRAIN_TEXT_READER: usize = 8201; //     Response::text_reader() + read_to_string
+pub const DRAIN_TEXT_UTF8: usize = 8202; //       Response::text_utf8() judged like the three above (Ok / Err only)
+
+/// the text family: what they return is the decoding of the body (C18's business); here `Ok` stands for
+/// "the whole body was read", so the canonical line shows only `o`
+pub fn is_text_drain(n: usize) -> bool {
+    (DRAIN_TEXT..=DRAIN_TEXT_UTF8).contains(&n)
+}
 
 pub fn drain_letter(n: usize) -> char {
     match n {
         DRAIN_WRITE_TO | DRAIN_WRITE_TO_SHORT => 'W',
         DRAIN_JSON | DRAIN_JSON_UTF8 => 'J',
+        DRAIN_TEXT | DRAIN_TEXT_WITH | DRAIN_TEXT_READER | DRAIN_TEXT_UTF8 => 'X',
         DRAIN_SPLIT => 'S',
         DRAIN_ERR_FOR_STATUS => 'Q',
         _ => 'B',
@@ -162,6 +173,8 @@ pub struct RespOut {
     pub ok_read_waited: Option<usize>,
     /// what `write_to` had written into the caller's sink when it returned an error
     pub partial: Vec<u8>,
+    /// the canonical line shows `o` for an Ok event, not its bytes (text family: the decoding is C18's business)
+    pub mask_ok: bool,
 }
 
 impl RespOut {
@@ -181,7 +194,7 @@ impl RespOut {
                         .collect::<Vec<_>>()
                         .join(",")
                 };
-                let ev = self.events.iter().map(|e| e.to_string()).collect::<Vec<_>>().join(",");
+                let ev = self.events.iter().map(|e| if self.mask_ok && matches!(e, Ev::Ok(_)) { "o".to_string() } else { e.to_string() }).collect::<Vec<_>>().join(",");
                 if self.coding == "plain" || std::env::var("ATTO_SHOW_EVENTS").is_ok() {
                     format!("head={} coding=plain hdrs={} ev={}", st, h, ev)
                 } else {
@@ -289,6 +302,7 @@ pub fn run_resp(case: &RespCase) -> RespOut {
         send_ok_waited: false,
         ok_read_waited: None,
         partial: vec![],
+        mask_ok: matches!(&case.reads, Reads::Drain(h) if is_text_drain(*h)),
     };
     let sent = catch_unwind(AssertUnwindSafe(|| {
         attohttpc::RequestBuilder::new(method_of(&case.method), "http://verif.test/x")
@@ -427,6 +441,14 @@ pub fn run_resp(case: &RespCase) -> RespOut {
                         // the document is known to the generator: Ok stands for "the whole body was read and parsed"
                         DRAIN_JSON => resp.json::<serde_json::Value>().map(|v| serde_json::to_vec(&v).unwrap_or_default()),
                         DRAIN_JSON_UTF8 => resp.json_utf8::<serde_json::Value>().map(|v| serde_json::to_vec(&v).unwrap_or_default()),
+                        DRAIN_TEXT => resp.text().map(String::into_bytes),
+                        DRAIN_TEXT_WITH => resp.text_with(attohttpc::charsets::WINDOWS_1252).map(String::into_bytes),
+                        DRAIN_TEXT_UTF8 => resp.text_utf8().map(String::into_bytes),
+                        DRAIN_TEXT_READER => {
+                            let mut s = String::new();
+                            resp.text_reader().read_to_string(&mut s).map_err(attohttpc::Error::from)?;
+                            Ok(s.into_bytes())
+                        }
                         _ => resp.bytes(),
                     }));
                     out.partial = kept.lock().unwrap().clone();
